@@ -34,6 +34,7 @@ class OdeWorld:
         self.setups, self.steps, self.fail_at = [], [], fail_at
         self.eig = eig or (lambda t: [0.3, -1.0])
         self.objs = []
+        self.vel = lambda: list(C)       # velocity of the test problem (a session makes it depend on the model's current parameter value)
 
 
 class OdeObj:
@@ -72,7 +73,7 @@ class OdeObj:
         self.world.steps.append((self.name, self.t, t))
         if self.world.fail_at is not None and len(self.world.steps) == self.world.fail_at:
             self._ok = False
-        new = [yi + ci * (t - self.t) for yi, ci in zip(self.y.data, C)]
+        new = [yi + ci * (t - self.t) for yi, ci in zip(self.y.data, self.world.vel())]
         self.y.data[:] = new          # the wrapper reuses its state buffer
         self.t = t
         return self.y
@@ -239,13 +240,16 @@ class _Roles:
         return ("py", ev)
 
 
-def run_entry(repo, entry, t, full_output, method=None):
-    """interpret DeterministicOde.integrate / integrate2 down to the library boundary (scipy.integrate.ode / odeint models)"""
+def run_entry(repo, entry, t, full_output, method=None, session=None):
+    """interpret DeterministicOde.integrate / integrate2 / solve_determ down to the library boundary (scipy.integrate.ode / odeint models);
+    with a `session` the same abstract model object lives on across calls"""
     cls = M.sim_class(repo)
     fn = repo.resolve_method(cls, entry)
     if fn is None:
         raise AnalysisError("%s vanished" % entry)
     world = OdeWorld(eig=EIG["switching"])
+    if session is not None:
+        world.vel = session.vel
     roles = _Roles()
     summ = _world_summaries(world)
     holder = {}
@@ -273,7 +277,7 @@ def run_entry(repo, entry, t, full_output, method=None):
             call(Dfun, *first)
         if col_deriv:
             roles.errors.append("odeint is told col_deriv=%r but jacobian() returns d f_i / d x_j in row i" % (col_deriv,))
-        rows = NumArr([[yi + ci * (tk - ts[0]) for yi, ci in zip(y0l, C)] for tk in ts])
+        rows = NumArr([[yi + ci * (tk - ts[0]) for yi, ci in zip(y0l, world.vel())] for tk in ts])
         world.steps.append(("odeint", ts[0], ts[-1]))
         return (rows, {"message": "ok"}) if full_output else rows
     summ["scipy.integrate.odeint"] = odeint
@@ -281,17 +285,132 @@ def run_entry(repo, entry, t, full_output, method=None):
     summ["integrate.odeint"] = odeint
     summ["check_array_type"] = lambda v: v if isinstance(v, NumArr) else NumArr(list(v))
     types = {"Number": lambda v: isinstance(v, (int, float)) and not isinstance(v, bool), "np.ndarray": lambda v: isinstance(v, NumArr)}
-    me = Obj("Model", _x0=NumArr([10.0, 20.0]), _t0=0.5, _stochasticParam=None, _intName=None,
-             ode=roles.state_first("ode"), jacobian=roles.state_first("jacobian"))
-    ab = Abs({}, types, summ, me, {}, budget=200000)
+    if session is not None:
+        me = session.me
+        me.attrs["ode"], me.attrs["jacobian"] = roles.state_first("ode"), roles.state_first("jacobian")
+        summ.update(session.summaries)
+        types.update(session.types)
+    else:
+        me = Obj("Model", _x0=NumArr([10.0, 20.0]), _t0=0.5, _stochasticParam=None, _intName=None,
+                 ode=roles.state_first("ode"), jacobian=roles.state_first("jacobian"))
+    ab = Abs({}, types, summ, me, dict(session.getters) if session is not None else {}, budget=200000, eq=session.eq if session is not None else None)
     ab.class_methods = set(repo.all_methods(cls)) | {g for c in repo.mro(cls) for g in c.getters}
+    ab.self_class = (repo, cls)
     ab.module = fn.module
     holder["ab"] = ab
-    args = {"t": t, "full_output": full_output}
+    args = {"t": t}
+    if "full_output" in fn.params:
+        args["full_output"] = full_output
     if "method" in fn.params:
         args["method"] = method
     kind, out = ab.run_function(fn.node, args)
     return fn, kind, out, roles, world
+
+
+class Session:
+    """one abstract model object across a history of solves and assignments (initial state / time / values, parameters)"""
+
+    def __init__(self, repo):
+        from ..checks import C09
+        self.repo = repo
+        self.cls = M.sim_class(repo)
+        me = C09.model(["p"])
+        me.attrs.update(dict(_x0=NumArr([10.0, 20.0]), _t0=0.5, _intName=None, _odeSolution=None, _odeTime=None, _odeOutput=None, _paramValue=[1.0],
+                             _stateList=[Obj("ODEVariable", ID="a", name="a"), Obj("ODEVariable", ID="b", name="b")], num_state=2))
+        self.me = me
+        self.summaries = dict(C09.helper_summaries(["p"]))
+        self.types = dict(C09.TYPES)
+        self.getters = dict(C09.GETTERS)
+        self.getters["num_state"] = lambda m: 2
+        self.eq = C09.eq_hook
+        self.x0, self.t0, self.p = [10.0, 20.0], 0.5, 1.0         # what the user has set so far
+
+    def vel(self):
+        pv = self.me.attrs.get("_paramValue")
+        p = float(pv[0]) if isinstance(pv, (list, NumArr)) and len(pv) else 1.0
+        return [c * p for c in C]
+
+    def assign(self, prop, value):
+        setter = self.repo.resolve_setter(self.cls, prop)
+        if setter is None:
+            raise AnalysisError("setter %s vanished" % prop)
+        summ = dict(num_summaries())
+        summ.update(self.summaries)
+        types = {"Number": lambda v: isinstance(v, (int, float)) and not isinstance(v, bool), "np.ndarray": lambda v: isinstance(v, NumArr)}
+        types.update(self.types)
+        types["np.ndarray"] = lambda v: isinstance(v, NumArr)
+        ab = Abs({}, types, summ, self.me, dict(self.getters), budget=100000, eq=self.eq)
+        ab.class_methods = set(self.repo.all_methods(self.cls)) | {g for c in self.repo.mro(self.cls) for g in c.getters}
+        ab.self_class = (self.repo, self.cls)
+        ab.module = setter.module
+        kind, out = ab.run_function(setter.node, {setter.params[1]: value})
+        if kind != "return":
+            raise Raised("assigning %s raises %s" % (prop, out))
+        if prop == "initial_state":
+            self.x0 = [float(v) for v in value]
+        elif prop == "initial_time":
+            self.t0 = float(value)
+        elif prop == "initial_values":
+            self.x0, self.t0 = [float(v) for v in value[0]], float(value[1])
+        elif prop == "parameters":
+            self.p = float(list(value.values())[0])
+
+    def want(self, times):
+        return [[float(v) for v in self.x0]] + [[xi + ci * self.p * (tk - self.t0) for xi, ci in zip(self.x0, C)] for tk in times]
+
+
+def check_histories(repo, res, rule="R-FRESH"):
+    """histories [solve, assignments..., solve] on one model object: every solve returns the solution of the problem as it is *now*
+    (current initial state, initial time and parameter values), whatever was solved or stored before"""
+    import itertools
+    G1, G2 = [1.0, 2.0, 3.5], [0.75, 1.0, 3.0]
+    assigns = {
+        "initial_state": lambda: ("initial_state", NumArr([4.0, 8.0])),
+        "initial_state(list)": lambda: ("initial_state", [4.0, 8.0]),
+        "initial_time": lambda: ("initial_time", 0.25),
+        "initial_values": lambda: ("initial_values", (NumArr([6.0, 3.0]), 0.125)),
+        "parameters": lambda: ("parameters", {"p": 2.0}),
+    }
+    entries = ["solve_determ", "integrate", "integrate2"]
+    cls = M.sim_class(repo)
+    fn0 = repo.resolve_method(cls, "solve_determ") or repo.resolve_method(cls, "integrate")
+    bad, n = [], 0
+    mids = [()] + [(a,) for a in assigns] + [(a, b) for a in assigns for b in assigns if a.split("(")[0] != b.split("(")[0]]
+    for first, mid, last, same_grid in itertools.product(entries, mids, entries, (True, False)):
+        if repo.resolve_method(cls, first) is None or repo.resolve_method(cls, last) is None:
+            continue
+        if not mid and same_grid and first == last and first != "solve_determ":
+            continue
+        ses = Session(repo)
+        label = "%s(G1) -> %s -> %s(%s)" % (first, ", ".join("set " + m for m in mid) or "(nothing)", last, "G1" if same_grid else "G2")
+        try:
+            _, kind, out, _, _ = run_entry(repo, first, list(G1), False, None, session=ses)
+            if kind != "return":
+                bad.append("%s: the first solve raises %s" % (label, out))
+                n += 1
+                continue
+            for m in mid:
+                prop, value = assigns[m]()
+                ses.assign(prop, value)
+            g = G1 if same_grid else G2
+            _, kind, out, _, _ = run_entry(repo, last, list(g), False, None, session=ses)
+        except Undecided as e:
+            res.undecided(rule, fn0, "histories", "outside the modelled subset (%s): %s" % (label, e))
+            return n
+        except Raised as r:
+            bad.append("%s: %s" % (label, r.exc))
+            n += 1
+            continue
+        n += 1
+        want = ses.want(g)
+        if kind != "return":
+            bad.append("%s: the last solve raises %s" % (label, out))
+        elif not _close(out, want):
+            got = out.tolist() if isinstance(out, NumArr) else out
+            bad.append("%s: the last solve returns %s; the problem as it stands (x0=%s, t0=%s, parameter=%s) has the solution %s" % (label, got, ses.x0, ses.t0, ses.p, want))
+    res.check(not bad, rule, fn0, "histories", "%d histories [solve, up to two assignments of initial state / time / values / parameters, solve again on the same or another grid] over "
+              "solve_determ / integrate / integrate2: every solve returns the solution of the current problem" % n, "; ".join(bad[:2]), node=fn0.node if fn0 else None)
+    return n
 
 
 def check_entrypoints(repo, res, rule="R-GRID"):
